@@ -493,6 +493,7 @@ package rewriter
 //@ extern (*loader.Pkg).NewIdent(pkg, name, ty) (id)
 //@   ensures fresh(id) && same(id.Name, name)
 //@ extern (*loader.Pkg).UpdateUses(pkg, id, obj)
+//@   requires[ident-or-selector] isa(id, Ident) || isa(id, SelectorExpr)      -- go-loader panics ('unreached') on any other expression
 //@   ensures true
 //@ extern (*loader.Pkg).ShowNode(pkg, n) (s)
 //@   ensures true
@@ -682,6 +683,8 @@ package rewriter
 //@   ghost isa(stmt, BlockStmt) && NYList(as(stmt, BlockStmt).List) ==> NY(stmt)
 //@   ensures[no-yield-dropped] AllPlain(children) ==> NY(stmt)
 //@   ensures[plain-keeps-block] AllPlain(children) && res != nil ==> res == children
+//@   -- native code stays native (C17, compile side): a nested block with nothing lowered inside is pushed as it is
+//@   ensures[local:native-kept] isa(stmt, BlockStmt) && AllPlain(following) ==> res == children && BKind(children, BLen(children) - 1) == kindTrival && BStmt(children, BLen(children) - 1) == stmt
 //@   ensures[supported] Sup(stmt)
 //@   ensures[nil-means-last-or-branch] res == nil && !isLast ==> isa(stmt, BranchStmt)
 //@   cover[range-arm] isa(stmt, RangeStmt) && res == children
